@@ -9,7 +9,6 @@ package db
 import (
 	"errors"
 	"fmt"
-	"reflect"
 	"strings"
 
 	"github.com/alicebob/sqlittle/sql"
@@ -23,6 +22,11 @@ type Schema struct {
 	PK           []IndexColumn // only set for non-rowid tables
 	PrimaryKey   string        // only set for rowid tables: name of the index
 	RowidPK      bool          // only set for rowid tables: whether we have a 'integer primary key' column, which means there is no separate index for the primary key
+
+	// non-rowid tables: the primary key looks like a rowid alias, for which
+	// SQLite makes the index last. Unless a UNIQUE constraint on the same
+	// column comes along first, then that index is used.
+	pkDeferred bool
 }
 
 type TableColumn struct {
@@ -139,13 +143,22 @@ func newCreateTable(ct sql.CreateTableStmt) *Schema {
 			}
 			if ct.WithoutRowid {
 				// non-rowid primary keys have a special place
-				st.setPK([]IndexColumn{
+				if st.setPK([]IndexColumn{
 					{
 						Column:    c.Name,
+						Collate:   c.Collate,
 						SortOrder: c.PrimaryKeyDir,
 					},
-				})
-				autoindex++
+				}) {
+					// uses an existing index
+				} else if !isRowid(false, c.Type, c.PrimaryKeyDir) {
+					// SQLite makes the index for what looks like a rowid
+					// alias only when it gets to the WITHOUT ROWID: it
+					// gets its number after all the others.
+					autoindex++
+				} else {
+					st.pkDeferred = true
+				}
 			} else {
 				if col.Rowid {
 					st.RowidPK = true
@@ -155,6 +168,7 @@ func newCreateTable(ct sql.CreateTableStmt) *Schema {
 					[]IndexColumn{
 						{
 							Column:    c.Name,
+							Collate:   c.Collate,
 							SortOrder: c.PrimaryKeyDir,
 						},
 					},
@@ -170,6 +184,7 @@ func newCreateTable(ct sql.CreateTableStmt) *Schema {
 				[]IndexColumn{
 					{
 						Column:    c.Name,
+						Collate:   c.Collate,
 						SortOrder: sql.Asc,
 					},
 				},
@@ -196,8 +211,14 @@ constraint:
 				for _, co := range c.IndexedColumns {
 					st.column(co.Column).Null = false
 				}
-				st.setPK(st.toIndexColumns(c.IndexedColumns))
-				autoindex++
+				if st.setPK(st.toIndexColumns(c.IndexedColumns)) {
+					// uses an existing index
+				} else if col := st.column(c.IndexedColumns[0].Column); len(c.IndexedColumns) != 1 || !isRowid(true, col.Type, c.IndexedColumns[0].SortOrder) {
+					// see the note at the column constraint
+					autoindex++
+				} else {
+					st.pkDeferred = true
+				}
 				continue
 			}
 			name := fmt.Sprintf("sqlite_autoindex_%s_%d", st.Table, autoindex)
@@ -212,6 +233,7 @@ constraint:
 		}
 	}
 
+	st.pkDeferred = false // only used above
 	return st
 }
 
@@ -234,6 +256,7 @@ func (st *Schema) toIndexColumns(ci []sql.IndexedColumn) []IndexColumn {
 			Expression: col.Expression,
 			SortOrder:  col.SortOrder,
 		}
+		c.Collate = col.Collate
 		if col.Column != "" {
 			// not an expression column
 			base := st.column(col.Column)
@@ -253,11 +276,17 @@ func (st *Schema) toIndexColumns(ci []sql.IndexedColumn) []IndexColumn {
 // add an index. This is a noop if an equivalent index already exists. Returns
 // whether the indexed got added.
 func (st *Schema) addIndex(pk bool, name string, cols []IndexColumn) bool {
-	if reflect.DeepEqual(st.PK, cols) {
-		return false
+	if sameIndexColumns(st.PK, cols) {
+		// the first time for a deferred primary key this takes a number
+		deferred := st.pkDeferred
+		st.pkDeferred = false
+		if deferred {
+			st.PK = cols // this is the index, with its sort order
+		}
+		return deferred
 	}
 	for _, ind := range st.Indexes {
-		if reflect.DeepEqual(ind.Columns, cols) {
+		if sameIndexColumns(ind.Columns, cols) {
 			if pk {
 				st.PrimaryKey = ind.Index
 			}
@@ -274,17 +303,59 @@ func (st *Schema) addIndex(pk bool, name string, cols []IndexColumn) bool {
 	return true
 }
 
+// SQLite doesn't make a new index for a PRIMARY KEY or UNIQUE constraint if
+// there already is one on the same columns with the same collations. Sort
+// order and the case of names don't matter.
+func sameIndexColumns(a, b []IndexColumn) bool {
+	if len(a) != len(b) {
+		return false
+	}
+	coll := func(c string) string {
+		if c == "" {
+			return DefaultCollate
+		}
+		return strings.ToLower(c)
+	}
+	for i := range a {
+		if strings.ToLower(a[i].Column) != strings.ToLower(b[i].Column) ||
+			a[i].Expression != b[i].Expression ||
+			coll(a[i].Collate) != coll(b[i].Collate) {
+			return false
+		}
+	}
+	return true
+}
+
 // sets the PK key (for non-rowid tables). Deletes any duplicate indexes.
-func (st *Schema) setPK(cols []IndexColumn) {
+// Returns true if there was such an index.
+func (st *Schema) setPK(cols []IndexColumn) bool {
+	// SQLite drops repeated columns: PRIMARY KEY(a,b,a) is PRIMARY KEY(a,b)
+	var pk []IndexColumn
+	for _, c := range cols {
+		dup := false
+		for _, p := range pk {
+			if sameIndexColumns([]IndexColumn{p}, []IndexColumn{c}) {
+				dup = true
+			}
+		}
+		if !dup {
+			pk = append(pk, c)
+		}
+	}
+	cols = pk
 	st.PK = cols
+	found := false
 	for i, ind := range st.Indexes {
-		if reflect.DeepEqual(ind.Columns, cols) {
+		if sameIndexColumns(ind.Columns, cols) {
+			found = true
+			st.PK = ind.Columns // keeps the sort order of the index it uses
 			st.Indexes = append(st.Indexes[:i], st.Indexes[i+1:]...)
 			if len(st.Indexes) == 0 {
 				st.Indexes = nil // to make test diffs easier
 			}
 		}
 	}
+	return found
 }
 
 // Returns the index of the named column, or -1.
